@@ -1159,7 +1159,8 @@ def _apply_rolling(
 
     if values_are_times:
         if operation == "diff":
-            result = result.view("m8[ns]")
+            # differences carry the time unit of the input
+            result = result.view(f"m8[{np.datetime_data(orig_dtype)[0]}]")
         else:
             result = result.view(orig_dtype)
 
@@ -1585,7 +1586,12 @@ def _rolling_shift_or_diff_1d(
                 if want_shift:
                     out[i] = group_buffers[key, pos]
                 else:
-                    out[i] = val - group_buffers[key, pos]
+                    old_val = group_buffers[key, pos]
+                    if is_null(val) or is_null(old_val):
+                        # a null on either side gives a null difference (NaT is an integer sentinel)
+                        out[i] = null_value
+                    else:
+                        out[i] = val - old_val
             else:
                 group_counts[key] += 1
 
